@@ -27,7 +27,7 @@ RULE = ("enum: name = prefix + sep.join(segs); segs = every list of 0..6 (quick 
         "for the canonical spelling of a name (first segment non-empty, separator style that is distinguishable at "
         "that length), so counted (root, name) pairs are distinct by construction. "
         "url: URL = '/static' + ''.join('/' + s) over 0..5 segments of {'..', '.', '', 'etc', 'a', '%2e%2e', '\\', "
-        "'\\etc', '..\\..'} with/without trailing slash, captured by Router.getRoute for /static/:p* and /static/:p+, "
+        "'\\etc', '..\\..'} (the longest also with a trailing slash), captured by Router.getRoute for /static/:p* and /static/:p+, "
         "capture joined onto each root; rooted: absolute names built from each root's own directory string (the root, "
         "root + suffix such as '2/a', its parent, the root minus its last character; '/' or '\\' spelling) for 13 roots. "
         "url non-trivial = capture beginning with a separator or holding a dot segment or "
@@ -235,15 +235,13 @@ def run_url(spec, ctx):
             idx += 1
             if idx % n != i:
                 continue
-            for trail in ("", "/"):
-                if trail and k and segs[-1] == "":
-                    continue  # same string as the next length without trailing slash
+            # a trailing slash is the same string as one more (empty) segment: only the longest URLs need it
+            for trail in (("", "/") if k == kmax else ("",)):
                 url = "/static" + "".join("/" + s for s in segs) + trail
                 for pattern in URL_PATTERNS:
                     cap = caps.capture(pattern, url)
                     if cap is None:
-                        evals += 1
-                        continue
+                        continue  # not routed to this handler: nothing reaches path_join_safe
                     routed += 1
                     nontriv = is_nontrivial(cap)
                     for root in ROOTS:
